@@ -1,7 +1,7 @@
 """C01 - Connected instances converge on one running Master (necessary structural conditions, not convergence)."""
 import ast
 from ..model import own_nodes, AnalysisError
-from ..paths import factmap, must_call, call_text, returns
+from ..paths import ctext, factmap, must_call, call_text, returns
 from ..callgraph import CallGraph
 from ..fsm import Fsm, WORKING, ENDING
 
@@ -103,9 +103,8 @@ def run(P, R):
                         (u.qual, c.func.attr))
     R.require(n_sites >= 6, 'fewer than 6 call sites of the _master_* halves found')
     u = P.unit('SupvisorsStateModes.is_master')
-    rs = [ast.unparse(v) for v, f, n in returns(u) if v is not None]
-    R.check(r1, rs in (['self.master_identifier == self.local_identifier'],
-                       ['self.local_identifier == self.master_identifier']),
+    rs = [ctext(v) for v, f, n in returns(u) if v is not None]
+    R.check(r1, rs == [ctext('self.master_identifier == self.local_identifier')],
             'is_master() is exactly "the recognised Master is the local instance"', 'is_master|definition', u.loc(),
             'SupvisorsStateModes.is_master returns %s' % rs)
 
@@ -211,8 +210,8 @@ def run(P, R):
     calls = [c for c in own_nodes(setter.node) if isinstance(c, ast.Call)
              and call_text(c) == 'self.supvisors.state_modes.update_instance_state']
     ok = len(calls) == 1 and [ast.unparse(a) for a in calls[0].args] == ['self.identifier', 'new_state'] and \
-        {tuple(f) for f in factmap(setter).at(calls[0])} <= {('self._state == new_state', False),
-                                                             ('self._state == new_state', False),
+        {tuple(f) for f in factmap(setter).at(calls[0])} <= {('new_state == self._state', False),
+                                                             ('new_state == self._state', False),
                                                              ('self.check_transition(new_state)', True)}
     R.check(r3, ok, 'every instance state change is forwarded to update_instance_state', 'master-reset|state-setter',
             setter.loc(), 'the instance state setter does not forward every accepted change to update_instance_state')
